@@ -11,6 +11,9 @@ import (
 	ike "github.com/free5gc/ike"
 	"github.com/free5gc/ike/eap"
 	"github.com/free5gc/ike/message"
+	"github.com/free5gc/ike/security"
+	"github.com/free5gc/ike/security/encr"
+	"github.com/free5gc/ike/security/integ"
 	"pgregory.net/rapid"
 
 	"verif/bridge"
@@ -865,6 +868,60 @@ func c04RunSANested(c *probe.Ctx) {
 	}
 }
 
+// A key set whose algorithm descriptors were looked up by a name the library does not know (a configuration typo, an
+// algorithm of a later version): the caller gets "no descriptor" and the unprotect / protect entry points answer with an error.
+type c04NameIn struct {
+	EncrName  string `json:"encr_name"`
+	IntegName string `json:"integ_name"`
+	RecvI     bool   `json:"recv_initiator"`
+	WithHdr   bool   `json:"with_header"`
+}
+
+var c04Names = probe.Define("C04", "unknown-names", func(t *rapid.T) c04NameIn { panic("enumerated") }, func(in c04NameIn) probe.Outcome {
+	suite := bridge.SuiteSel{Encr: 0, Integ: 1}
+	keys := fuzzKeysFor(suite)
+	msg := model.Message{Header: model.Header{ISPI: 7, RSPI: 9, Major: 2, Exchange: 37, Flags: 0x08, MsgID: 3}, Payloads: []model.Payload{{Kind: model.KNonce, Data: model.Bytes{1, 2, 3}}}}
+	w, err := refProtect(msg, suite, *keys, !in.RecvI, make([]byte, 16), -1, nil)
+	if err != nil {
+		return probe.Fail("HARNESS: %v", err)
+	}
+	var sa *security.IKESAKey
+	if err := probe.Try(func() error {
+		// built the way a caller does it: descriptor by name, objects only where a descriptor came back
+		sa = &security.IKESAKey{EncrInfo: encr.StrToType(in.EncrName), IntegInfo: integ.StrToType(in.IntegName)}
+		if sa.EncrInfo != nil {
+			k := make([]byte, sa.EncrInfo.GetKeyLength())
+			sa.Encr_i, _ = sa.EncrInfo.NewCrypto(k)
+			sa.Encr_r, _ = sa.EncrInfo.NewCrypto(k)
+		}
+		if sa.IntegInfo != nil {
+			k := make([]byte, sa.IntegInfo.GetKeyLength())
+			sa.Integ_i, sa.Integ_r = sa.IntegInfo.Init(k), sa.IntegInfo.Init(k)
+		}
+		return nil
+	}); err != nil {
+		return probe.Fail("a descriptor looked up by the name %q / %q is reported as present but cannot be used: %v", in.EncrName, in.IntegName, err)
+	}
+	x := probe.Exact(w)
+	err = probe.Try(func() error {
+		var hdr *message.IKEHeader
+		if in.WithHdr {
+			hdr, _ = message.ParseHeader(x)
+		}
+		_, e := ike.DecodeDecrypt(x, hdr, sa, bridge.Role(in.RecvI))
+		return e
+	})
+	if probe.IsPanic(err) {
+		return probe.Fail("DecodeDecrypt with a key set whose algorithms were looked up as %q / %q panics: %v", in.EncrName, in.IntegName, err)
+	}
+	lm, _ := bridge.ToLib(msg)
+	err = probe.Try(func() error { _, e := ike.EncodeEncrypt(lm, sa, bridge.Role(in.RecvI)); return e })
+	if probe.IsPanic(err) {
+		return probe.Fail("EncodeEncrypt with a key set whose algorithms were looked up as %q / %q panics: %v", in.EncrName, in.IntegName, err)
+	}
+	return probe.OK(true, "unknown-names")
+})
+
 func TestC04(t *testing.T) {
 	c := probe.NewCtx(t, "C04")
 	shards := 1
@@ -875,6 +932,14 @@ func TestC04(t *testing.T) {
 	if c.Shard == 0 {
 		c04RunSKBodies(c)
 		c04RunSANested(c)
+		names := []string{"", "bogus", "ENCR_AES_CBC_512", "AUTH_HMAC_SHA2_512_256", "encr_aes_cbc_128", "auth_hmac_sha1_96", "ENCR_AES_CBC_128 ", "AUTH_HMAC_SHA1_96\x00"}
+		for _, e := range append([]string{"ENCR_AES_CBC_128"}, names...) {
+			for _, i := range append([]string{"AUTH_HMAC_SHA1_96"}, names...) {
+				for m := 0; m < 4; m++ {
+					c04Names.Eval(c, c04NameIn{EncrName: e, IntegName: i, RecvI: m&1 == 1, WithHdr: m&2 == 2})
+				}
+			}
+		}
 	}
 	if c.Shard < shards {
 		c04RunSweep(c, c.Shard, shards)
